@@ -60,6 +60,8 @@ func replayTestGen(ctx *RunCtx, e Entry, v engine.Violation, dir string) (bool, 
 		return replayTestGenUsage(dir)
 	case "verifC18LongLine":
 		return replayTestGenLongLine(dir)
+	case "verifC18Scenarios":
+		return replayTestGenScenarios(dir)
 	}
 	src := filepath.Join(dir, "pkg")
 	os.MkdirAll(src, 0o755)
@@ -157,10 +159,13 @@ func replayTestGenLongLine(dir string) (bool, string) {
 		return false, "build failed: " + string(out)
 	}
 	defer os.Remove(bin)
-	for _, n := range []int{65535, 65536, 70000} {
+	for _, n := range []int{65535, 65536, 70000, 4096, 8192} {
 		src := filepath.Join(dir, fmt.Sprintf("pkg%d", n))
 		os.MkdirAll(src, 0o755)
 		long := "//" + strings.Repeat("x", n-2)
+		if n < 10000 {
+			long += "func testPhantom() bool {"
+		}
 		os.WriteFile(filepath.Join(src, "a.go"), []byte("func testA() bool {\n"+long+"\nfunc failing_testB() bool {\n"), 0o644)
 		goCmd, coqCmd := exec.Command(bin, "-go", src), exec.Command(bin, "-coq", src)
 		goOut, goErr := runWithTimeout(goCmd, time.Minute)
@@ -170,6 +175,10 @@ func replayTestGenLongLine(dir string) (bool, string) {
 		}
 		okGo := strings.Contains(string(goOut), "testA())") && strings.Contains(string(goOut), "failing_testB())")
 		okCoq := strings.Contains(string(coqOut), "testA #()") && strings.Contains(string(coqOut), "failing_testB #()")
+		if strings.Contains(string(goOut), "Phantom") || strings.Contains(string(coqOut), "Phantom") {
+			os.WriteFile(filepath.Join(dir, "cmd.sh"), []byte(fmt.Sprintf("#!/bin/sh\ncd %s && go run ./cmd/test_gen -go %s; go run ./cmd/test_gen -coq %s\n", RepoRoot, src, src)), 0o755)
+			return true, fmt.Sprintf("real test_gen: text at offset %d of a long line is taken for a test-function header (a test for a function that does not exist)", n)
+		}
 		if !okGo || !okCoq {
 			os.WriteFile(filepath.Join(dir, "cmd.sh"), []byte(fmt.Sprintf("#!/bin/sh\ncd %s && go run ./cmd/test_gen -go %s; go run ./cmd/test_gen -coq %s\n", RepoRoot, src, src)), 0o755)
 			return true, fmt.Sprintf("real test_gen: a source line of %d bytes makes the generators drop the test function that follows it (-go complete: %v, -coq complete: %v, exit status 0)", n, okGo, okCoq)
@@ -177,4 +186,77 @@ func replayTestGenLongLine(dir string) (bool, string) {
 		os.RemoveAll(src)
 	}
 	return false, "real test_gen handles the long lines"
+}
+
+// replayTestGenScenarios rebuilds the three concrete directories of verifC18Scenarios and runs the
+// real test_gen on them; the expected tests come from hostHeader.
+func replayTestGenScenarios(dir string) (bool, string) {
+	bin := filepath.Join(dir, "test_gen.bin")
+	os.MkdirAll(dir, 0o755)
+	build := exec.Command("go", "build", "-o", bin, "./cmd/test_gen")
+	build.Dir = RepoRoot
+	build.Env = append(os.Environ(), "GOFLAGS=-mod=mod", "GOPROXY=off", "GOSUMDB=off", "GOTOOLCHAIN=local")
+	if out, err := runWithTimeout(build, 3*time.Minute); err != nil {
+		return false, "build failed: " + string(out)
+	}
+	defer os.Remove(bin)
+	type file struct {
+		name  string
+		lines []string
+	}
+	long := "testAVeryLongTestFunctionNameThatGoesOnAndOn0123456789Z"
+	var many []string
+	for i := 0; i < 130; i++ {
+		many = append(many, fmt.Sprintf("func testN%d() bool {", i), "\treturn true", "}", "")
+	}
+	scenarios := [][]file{
+		{{"b.go", []string{"func testLowerB() bool {"}}, {"B.go", []string{"func testUpperB() bool {"}}, {"a10.go", []string{"func testTen() bool {"}},
+			{"a9.go", []string{"func testNine() bool {"}}, {"_x.go", []string{"func testUnderscore() bool {"}}, {"Z.go", []string{"func failing_testZ() bool {"}}},
+		{{"m.go", []string{"package semantics", "", "func " + long + "() bool {", "func test9lives() bool {", "func failing_test0() bool {", "func\ttestTab() bool {",
+			"func testCr() bool {\r", "\treturn true\r", "}\r", "func (b *box) testMethod() bool {", "// func testCommented() bool {", "\tfunc testIndented() bool {",
+			"func testUnder_score() bool {", "func test() bool {", "func testSpace () bool {", "func Testupper() bool {", "func failing_testLast() bool { return false }"}}},
+		{{"many.go", many}},
+	}
+	for k, files := range scenarios {
+		src := filepath.Join(dir, fmt.Sprintf("pkg%d", k))
+		os.MkdirAll(src, 0o755)
+		for _, f := range files {
+			os.WriteFile(filepath.Join(src, f.name), []byte(strings.Join(f.lines, "\n")+"\n"), 0o644)
+		}
+		goOut, _ := runWithTimeout(exec.Command(bin, "-go", src), time.Minute)
+		coqOut, _ := runWithTimeout(exec.Command(bin, "-coq", src), time.Minute)
+		sort.Slice(files, func(i, j int) bool { return files[i].name < files[j].name })
+		var want []string
+		for _, f := range files {
+			for _, l := range f.lines {
+				if ok, failing, nm := hostHeader(l); ok {
+					pre := ""
+					if failing {
+						pre = "failing_"
+					}
+					want = append(want, pre+"test"+nm)
+				}
+			}
+		}
+		var gotGo, gotCoq []string
+		for _, m := range regexp.MustCompile(`suite\.Equal\(true, ((?:failing_)?test[0-9A-Za-z]+)\(\)\)`).FindAllStringSubmatch(string(goOut), -1) {
+			gotGo = append(gotGo, m[1])
+		}
+		for _, m := range regexp.MustCompile(`(?m)^(?:Fail )?Example test[0-9A-Za-z]+_ok : ((?:failing_)?test[0-9A-Za-z]+) #\(\)`).FindAllStringSubmatch(string(coqOut), -1) {
+			gotCoq = append(gotCoq, m[1])
+		}
+		w, g, c := strings.Join(want, ","), strings.Join(gotGo, ","), strings.Join(gotCoq, ",")
+		if g != w || c != w {
+			os.WriteFile(filepath.Join(dir, "cmd.sh"), []byte(fmt.Sprintf("#!/bin/sh\ncd %s && go run ./cmd/test_gen -go %s; go run ./cmd/test_gen -coq %s\n", RepoRoot, src, src)), 0o755)
+			short := func(x string) string {
+				if len(x) > 300 {
+					return x[:300] + "…"
+				}
+				return x
+			}
+			return true, fmt.Sprintf("real test_gen on scenario %d: expected tests [%s]; -go emitted [%s]; -coq emitted [%s]", k, short(w), short(g), short(c))
+		}
+		os.RemoveAll(src)
+	}
+	return false, "real test_gen agrees with the oracle on the scenario directories"
 }
